@@ -109,6 +109,7 @@ pub fn run_workload(sub: u64, acc: &mut Acc, ctx: &Ctx, _thorough: bool) {
         "multiline" => args.extend(["-n".into(), "--no-heading".into(), "--with-filename".into(), "-U".into()]),
         _ => {}
     }
+    args.extend(gen_harmless_flags(&mut Rng::new(sub ^ 0xF1A6), &["-i", "-S"]));
     args.push("foo".into());
     if w.via_stdin {
         // no path: rg searches standard input (treated like an explicitly named file)
